@@ -623,15 +623,15 @@ func c06Profiles() []c06Profile {
 	return []c06Profile{
 		{name: "disjoint", weight: 10, share: 0, nsrc: 2, maxOps: 10, collide: 10, invalid: 4, reAdd: 2},
 		{name: "disjoint5", weight: 10, share: 0, nsrc: 5, maxOps: 16, collide: 15, invalid: 4, escapes: 6, reAdd: 2},
-		{name: "shared", weight: 10, share: 50, nsrc: 2, maxOps: 10, collide: 10, invalid: 3, reAdd: 2},
+		{name: "shared", weight: 10, share: 50, nsrc: 2, maxOps: 10, collide: 10, invalid: 3, dupID: 5, reAdd: 2},
 		{name: "shared2", weight: 10, share: 70, nsrc: 1, maxOps: 12, collide: 0, invalid: 2, escapes: 3, reAdd: 0},
 		{name: "shared-flags", weight: 8, share: 50, mixFlags: true, nsrc: 3, maxOps: 10, collide: 8, invalid: 3, escapes: 4, reAdd: 2},
 		{name: "structural", weight: 10, share: 25, nsrc: 2, maxOps: 10, collide: 8, invalid: 3, escapes: 10, trouble: 12, keyNames: 25, exotic: 6, reAdd: 2},
 		{name: "exotic", weight: 8, share: 20, nsrc: 3, maxOps: 10, collide: 8, invalid: 3, escapes: 6, trouble: 6, exotic: 25, reAdd: 2},
 		{name: "odd", weight: 8, share: 40, mixFlags: true, nsrc: 4, maxOps: 12, collide: 15, invalid: 8, escapes: 6, trouble: 4, keyNames: 8, exotic: 8, dupPath: 12, dupID: 12, reAdd: 20},
-		{name: "long", weight: 10, share: 20, nsrc: 4, maxOps: 25, collide: 12, invalid: 4, escapes: 4, reAdd: 3},
+		{name: "long", weight: 10, share: 20, nsrc: 4, maxOps: 25, collide: 12, invalid: 4, escapes: 4, dupID: 5, reAdd: 3},
 		{name: "family", weight: 10, share: 10, mixFlags: false, nsrc: 2, maxOps: 12, collide: 5, invalid: 1, reAdd: 1, family: true},
-		{name: "big", weight: 1, share: 85, nsrc: 2, maxOps: 22, collide: 5, invalid: 1, reAdd: 1, big: true},
+		{name: "big", weight: 2, share: 85, nsrc: 2, maxOps: 22, collide: 5, invalid: 1, reAdd: 1, big: true},
 	}
 }
 
@@ -1103,6 +1103,7 @@ func c06Run(c c06Case) (c06Case, c06Obs) {
 func c06Classify(c c06Case, o c06Obs) (tags []string, nontrivial bool) {
 	t := map[string]bool{}
 	cur := map[int][]c06Def{}
+	recreated := false
 
 	for i, op := range c.Ops {
 		st := o.Steps[i]
@@ -1128,8 +1129,19 @@ func c06Classify(c c06Case, o c06Obs) (tags []string, nontrivial bool) {
 			}
 		}
 
+		// a creation of a rule set the implementation holds: from here on the history is not judged
+		if _, has := cur[op.Src]; has && op.Kind == "add" {
+			recreated = true
+		}
+
 		if !same {
 			t["history!=fresh"] = true
+
+			if recreated {
+				t["history!=fresh:only-judged-before-recreate"] = true
+			} else {
+				t["history!=fresh:at-a-judged-step"] = true
+			}
 		}
 
 		if op.Kind == "upd" && st.Res == 0 {
@@ -1335,7 +1347,11 @@ func c06Coq(c c06Case, o c06Obs) string {
 func c06Corpus(t *testing.T) []c06Case {
 	dir := filepath.Join(os.Getenv("VERIF_DIR"), "corpus", "C06")
 
-	names, _ := filepath.Glob(filepath.Join(dir, "*.json"))
+	names, err := filepath.Glob(filepath.Join(dir, "*.json"))
+	if err != nil || len(names) == 0 {
+		t.Fatalf("no corpus cases in %s (VERIF_DIR unset?): %v", dir, err)
+	}
+
 	sort.Strings(names)
 
 	var out []c06Case
